@@ -186,6 +186,57 @@ def _break_to_err(body, branch_term):
     return True
 
 
+def check_callers(facts, chk):
+    """who-consumes rule: at every call site of MergeSkaArray::load / io_utils::load_array in the crate the Err outcome
+    must stop the operation: returned from a (non-closure) function whose callers are checked in turn, unwrapped
+    fatally, propagated with `?`, or tested with `if let Ok` in main (whose both-fail edge diverges, C09.arms)."""
+    sites = []
+    for b in facts.bodies.values():
+        if b.kind == 'Promoted':
+            continue
+        for bb, t in b.calls():
+            n = t.callee.name or ''
+            if n in (MSA + '::load', 'io_utils::load_array'):
+                sites.append((b, bb, t))
+    chk.floor('C19.callers', 'load / load_array call sites', len(sites), 18)
+    for b, bb, t in sites:
+        where = b.name if b.kind != 'Closure' else b.path
+        key = 'C19.callers:%s:%s' % (where.split('::')[-1] if b.kind != 'Closure' else where, (t.callee.full or '').split('::')[-1] + '@' + ('u128' if 'u128' in (t.callee.full or '') else 'u64' if 'u64' in (t.callee.full or '') else 'IntT'))
+        verdict = None
+        if t.dest.local == 0 and not t.dest.proj:
+            if b.kind == 'Closure':
+                verdict = 'the Result of %s is returned from a closure (%s): its consumer may drop the error (e.g. flat_map / filter_map / ok)' % (t.callee.name, b.path)
+            elif b.name not in ('io_utils::load_array',):
+                verdict = 'the Result of %s is returned from %s, whose callers are not audited' % (t.callee.name, b.name)
+        else:
+            uses = _uses(b, t.dest.local) if not t.dest.proj else []
+            if not uses:
+                verdict = 'the Result of %s is never inspected' % t.callee.name
+            if b.name == 'main' and any(u[0] == 'discr' for _, u in uses):
+                uses = []      # `if let Ok(..)`: the both-fail edge is checked by C09.arms / C19.arms
+            for ub, u in uses:
+                if u[0] == 'call':
+                    un = (u[1].callee.name or '')
+                    last = un.split('::')[-1]
+                    if last in ('expect', 'unwrap') or ('Try' in un and last == 'branch' and b.kind != 'Closure'):
+                        continue
+                    verdict = 'the Result of %s is passed to %s' % (t.callee.name, un)
+                elif u[0] == 'discr':
+                    if b.name != 'main':
+                        verdict = 'the Result of %s is matched outside main (%s)' % (t.callee.name, b.name)
+                elif u[0] == 'return':
+                    if b.kind == 'Closure':
+                        verdict = 'the Result of %s is returned from a closure' % t.callee.name
+                else:
+                    verdict = 'the Result of %s is used by %s' % (t.callee.name, u[0])
+        if verdict:
+            chk.violation('C19.callers', 'C19.callers:%s' % where, where=t.span,
+                          detail=verdict + ': a damaged .skf would be skipped instead of rejected')
+    bad = [i for i in chk.instances if i['rule'] == 'C19.callers' and i['status'] == 'VIOLATION']
+    if not bad:
+        chk.ok('C19.callers', 'C19.callers:all', '', 'all %d load / load_array call sites stop the operation on Err' % len(sites), evals=len(sites))
+
+
 def check_inplace(facts, chk):
     for fn, mutators in (('generic_modes::delete', ['delete_samples']), ('generic_modes::weed', ['::weed', '::filter'])):
         def go(fn=fn, mutators=mutators):
@@ -220,5 +271,6 @@ def run(facts, chk, tier, only=None):
     chk.guard('C19.stack', 'C19.stack:run', lambda: check_stack(facts, chk))
     chk.guard('C19.errors', 'C19.errors:run', lambda: check_errors(facts, chk))
     chk.guard('C19.inplace', 'C19.inplace:run', lambda: check_inplace(facts, chk))
+    chk.guard('C19.callers', 'C19.callers:run', lambda: check_callers(facts, chk))
     from . import c09
     chk.guard('C19.arms', 'C19.arms:run', lambda: c09.check_arms(facts, chk))
